@@ -2,6 +2,7 @@
 // Everything between //@fn and //@endfn is annotation; function text comes from /repo on every run.
 #![allow(unused_imports, dead_code, unused_variables, unused_mut, unused_assignments, non_snake_case)]
 use vstd::prelude::*;
+use vstd::string::*;
 verus! {
 
 //@include prelude_std.rs
@@ -44,6 +45,7 @@ impl FromPrimitive for binary::Command {
     { unimplemented!() }
 }
 
+//@consts protocol/binary_codec.rs | -
 //@items protocol/binary_codec.rs | enum BinaryRequest, enum RequestParserState, struct MemcacheBinaryCodec
 
 //@include wire.rs
@@ -87,7 +89,7 @@ impl MemcacheBinaryCodec {
         !st_hdr(*old(self)) ==> r is Err, // @ob C10 parse_request.needs_header
         (st_hdr(*old(self)) && old(self).header.body_length <= old(self).item_size_limit && old(src)@.len() < old(self).header.body_length) ==> r is Err, // @ob C09 parse_request.incomplete_is_err
         (st_hdr(*old(self)) && old(self).header.body_length <= old(self).item_size_limit && old(src)@.len() >= old(self).header.body_length)
-            ==> body_post(old(self).header, old(src)@, final(src)@, r), // @ob C09,C10,C12 parse_request.frame_exact
+            ==> body_post(old(self).header, old(src)@, final(src)@, r), // @ob C09,C10,C12,C18 parse_request.frame_exact
         (st_hdr(*old(self)) && old(self).header.body_length <= old(self).item_size_limit && old(src)@.len() >= old(self).header.body_length)
             ==> st_none(*final(self)), // @ob C09 parse_request.resets_state
 //@endfn
@@ -146,7 +148,7 @@ impl MemcacheBinaryCodec {
         op_append_class(self.header.opcode),
         old(src)@.len() >= self.header.body_length,
     ensures
-        parser_post(self.header, old(src)@, final(src)@, r), // @ob C09,C10,C06,C19 parse_append_prepend_request.frame_exact
+        parser_post(self.header, old(src)@, final(src)@, r), // @ob C09,C10,C06,C19,C01 parse_append_prepend_request.frame_exact
 //@endfn
 
 //@fn protocol/binary_codec.rs | impl MemcacheBinaryCodec | parse_inc_dec_request | ret=r | safety=C10
